@@ -159,8 +159,16 @@ def main():
         extra_cov = {}
         if extra is not None and not a.replay:
             efails, extra_cov = extra(ctx)
+            known_ids = {f.get("finding_id"): f for f in core.load_known()["findings"]
+                         if f.get("property") == prop and f.get("status") == "known" and f.get("finding_id")}
             for ef in efails:
-                violations.append(("extra", ef))
+                f = known_ids.get(ef.get("finding_id"))
+                if f is not None:
+                    line = "KNOWN-FINDING: property=%s %s" % (prop, f.get("what", ef.get("finding_id")))
+                    if line not in known_lines:
+                        known_lines.append(line)
+                else:
+                    violations.append(("extra", ef))
 
         cov.update({
             "evaluations": len(cases),
